@@ -341,15 +341,13 @@ def rule_noise_order(ctx: Ctx) -> None:
     # consumer: unwrap pairs by the same index
     om = repo.module(OPS)
     uw = repo.anchor(OPS, "OneQubitGateWrapper.unwrap")
-    comps = [n for n in ast.walk(uw) if isinstance(n, ast.ListComp) and "self.noise[" in norm(n.elt)]
-    if not comps:
-        raise AnalysisError("unwrap: noise pairing comprehension not found")
-    for lc in comps:
-        idx = norm(lc.generators[0].target)
-        if f"self.operations[{idx}]" in norm(lc.elt) and f"self.noise[{idx}]" in norm(lc.elt):
-            ctx.ok("order.wrapper", om, lc, what="unwrap pairs noise[i] with operations[i]")
-        else:
-            ctx.fail("order.wrapper", om, lc, "unwrap no longer pairs noise[i] with operations[i]", func="OneQubitGateWrapper.unwrap")
+    from ..props.c13 import unwrap_model
+    _fn, bad, _cases = unwrap_model(repo)
+    pairing = [b for b in bad if "per-gate noise" in b]
+    if pairing:
+        ctx.fail("order.wrapper", om, uw, "unwrap no longer pairs noise[i] with operations[i]: " + pairing[0], func="OneQubitGateWrapper.unwrap")
+    else:
+        ctx.ok("order.wrapper", om, uw, what="unwrap pairs noise[i] with operations[i] (wrapper model)")
     for rel, q in ((DAG, "CircuitDAG._noisy_gates"), (MC, "MonteCarloNoise._noisy_gates")):
         m = repo.module(rel)
         fn = repo.anchor(rel, q)
